@@ -19,6 +19,12 @@ R04.3 "CBC ... for any data alignment": in the 15 CBC bodies no alignment-demand
 R04.6 "in place or out of place": in the 15 CBC bodies, with the input and output pointers equated, no load through
       the input argument reads bytes that a store through the output argument has already written on some path to
       it - CBC decryption must keep the previous ciphertext block before overwriting it (lib/inplace.py).
+R04.7 AES round typestate in the CBC bodies (lib/aesrounds.py, on the path each length selects; lengths 16..640 in
+      steps of 16, thorough ..1600): every block stored through out went through the whitening with round key 0 and
+      then rounds 1..Nr with the round keys keys+16r in order, the last one in its *last form; no round instruction
+      meets a round key out of turn.  Lost track = not judged.
+R04.8 CBC chaining: output block j depends on input block j and on input block j-1 (the IV for j = 0) - an
+      over-approximating dependence set, presence demanded only.
 R04.4 instance floor: 8 key-expansion bodies, 15 CBC bodies, each with the argument list of aes_keyexp.c / aes_cbc.c.
 """
 import collections
@@ -310,6 +316,7 @@ def run(chk):
     nsinks = 0
     nacc = 0
     npairs = 0
+    n_lanes = n_unl = n_rounds = n_unk = 0
     for name in sorted(ccand):
         iface, sig = ccand[name]
         f = lib.func_named(name)
@@ -351,6 +358,33 @@ def run(chk):
                 badi = (i, None, nd)
             elif hit and badi is None:
                 badi = (i, hit[0], nd)
+        # R04.7 / R04.8 round typestate and chaining on the length skeleton
+        import aesrounds
+        nr_ = {128: 10, 192: 12, 256: 14}[int(re.search(r"_(128|192|256)_", name).group(1))]
+        hi_ = 1601 if chk.tier == "thorough" else 641
+        bad7 = None
+        jl = ul = jr = 0
+        for L in range(16, hi_, 16):
+            mch = aesrounds.run_body(lib, f, sig, nr_, L)
+            rr = mch.result
+            if rr.stopped or not rr.returned:
+                chk.broke("%s: length skeleton not followed for len = %d (%s)" % (name, L, rr.stopped))
+                break
+            jr += 1
+            v, a_, b_ = aesrounds.judge(mch, chain="cbc")
+            jl += a_
+            ul += b_
+            n_rounds += mch.rounds_ok
+            n_unk += mch.rounds_unk
+            if v and not bad7:
+                bad7 = (L, v)
+        n_lanes += jl
+        n_unl += ul
+        rule7 = "R04.8" if bad7 and "does not depend" in bad7[1][1] else "R04.7"
+        chk.obligation("R04.7", not (bad7 and rule7 == "R04.7"), key=(name, "rounds"), sample={"function": name, "rounds": nr_, "lengths": jr, "output_blocks_judged": jl, "not_judged": ul})
+        chk.obligation("R04.8", not (bad7 and rule7 == "R04.8"), key=(name, "chain"), sample={"function": name, "output_blocks_judged": jl})
+        if bad7:
+            chk.finding(Finding(rule7, o.name, name, "aes-rounds:len=%d" % bad7[0], "with len = %d: %s" % (bad7[0], bad7[1][1]), loc=o.line_of(f.sec, bad7[1][0].addr)))
         # R04.6 in-place hazard
         inr = [r for r, n_ in bufs.items() if n_ == "in"][0]
         outr = [r for r, n_ in bufs.items() if n_ == "out"][0]
@@ -370,6 +404,9 @@ def run(chk):
                                 "`%s` demands %d-byte alignment of %s; CBC promises any data alignment" % (i.text.strip(), nd, "memory addressed through the caller's %s pointer (%s)" % (bufs[r], r.lower()) if r else "an address the provenance analysis cannot classify"),
                                 loc=o.line_of(f.sec, i.addr)))
     chk.floor("CBC output-store / input-load pairs compared for in-place hazards", npairs, 300)
+    chk.floor("CBC output blocks judged for the round typestate", n_lanes, 10000)
+    chk.floor("AES round instructions (per lane) matched with their round key in the CBC bodies", n_rounds, 100000)
+    chk.extra["cbc_round_typestate"] = {"output_blocks_judged": n_lanes, "output_blocks_not_judged": n_unl, "round_steps_in_order": n_rounds, "round_steps_not_judged": n_unk}
     chk.floor("key-schedule stores seen", nstores, 150)
     chk.floor("CBC accesses through in/out", nacc, 300)
     chk.floor("CBC alignment-demanding instructions classified", nsinks, 1000)
